@@ -15,7 +15,7 @@ def run(ctx):
     res = tlc.run(MODULE, tlc.cfg_with("CadenceInject_MC.cfg", {"Small": "TRUE" if ctx.quick() else "FALSE"}, ctx.outdir), ctx.outdir, workers=8, coverage=True, timeout=3000)
     ctx.add_tlc(res, "CadenceInject_MC", "M")
     ctx.tlc_violation(res, MODULE, "CadenceInject_MC")
-    for a in ("Begin", "Shift", "Inject", "Unshift", "Finish"):
+    for a in ("Begin", "Begin2", "Retime", "Shift", "Inject", "Unshift", "Finish"):
         if res.coverage.get(a, (0, 0))[1] == 0:
             raise RuntimeError("vacuity: action %s never taken" % a)
     cfg = tlc.cfg_with("CadenceInject_Gen.cfg", {}, ctx.outdir)
@@ -35,7 +35,7 @@ def run(ctx):
     seen = set()
     for n, rec in enumerate(res.emitted):
         gname = ["dyadic", "bl_hires"][n % 2]
-        key = (gname, tuple(rec["cad"]["starts"]), tuple(rec["cad"]["T"]), rec["cad"]["asc"], tuple(rec["sels"]), rec["raiseAt"],
+        key = (gname, tuple(rec["cad"]["starts"]), tuple(rec["cad"]["T"]), rec["cad"]["asc"], tuple(rec["sels"]), rec["raiseAt"], rec.get("retime", -1),
                tuple(sorted((k, str(v)) for k, v in rec["sig"].items())))
         if key in seen:
             continue
@@ -52,9 +52,9 @@ def run(ctx):
                 ad.check_overwrite(rec, gname, 0 if n % 8 else 3)
         except ad.Div as d:
             args = {"geometry": gname, "starts": str(rec["cad"]["starts"]), "T": str(rec["cad"]["T"]), "asc": rec["cad"]["asc"],
-                    "sel": "/".join(rec["sels"]), "raiseAt": rec["raiseAt"], "action": d.field.split("[")[0]}
+                    "sel": "/".join(rec["sels"]), "raiseAt": rec["raiseAt"], "retime": rec.get("retime", -1), "action": d.field.split("[")[0]}
             args.update({k: v for k, v in rec["sig"].items() if k in ("iP", "iT", "iF", "smear", "tForm", "slope", "tsub")})
-            ctx.violation(MODULE, "replay:" + d.field.split("[")[0], args, {"record": {k: rec[k] for k in ("cad", "sig", "sels", "raiseAt", "raised")},
+            ctx.violation(MODULE, "replay:" + d.field.split("[")[0], args, {"record": {k: rec[k] for k in ("cad", "sig", "sels", "raiseAt", "raised", "retime", "starts2")},
                                                                           "field": d.field, "expected": d.expected, "observed": d.observed})
     from . import c18
     c18.trace_leg(ctx, "C16", inject_heavy=True)
